@@ -109,7 +109,10 @@ func genBatch(profile string) func(seed uint64, r *rng.Rand) *Plan {
 			for i := 0; i < nf; i++ {
 				ts := &p.Layout.Tables[g.R.Intn(len(p.Layout.Tables))]
 				at := g.R.Range(1, 25)
-				switch g.R.Intn(7) {
+				switch g.R.Intn(8) {
+				case 7:
+					// one server takes its time: the results of a batch come in at different times
+					p.Faults = append(p.Faults, &Fault{On: "step", N: 1, Act: "slow", Server: g.R.Intn(p.Layout.Servers), Dur: []int{1, 10, 40, 400, 2000}[g.R.Intn(5)]})
 				case 0:
 					p.Faults = append(p.Faults, &Fault{On: "exec", N: at, Act: "drop", Table: ts.Name})
 				case 1:
